@@ -20,7 +20,7 @@ import (
 // font (testcases.FontGen) with generated GSUB/GPOS/GDEF tables over its
 // glyph range (Layout looks up glyph widths, so all glyph ids must exist).
 func c07layouter(c *mon.Ctx) {
-	c.Stratum("layouter", c.N(2000, 75000), func(k *mon.Case) {
+	c.Stratum("layouter", c.N(2000, 50000), func(k *mon.Case) {
 		env := c06calibGet()
 		if env.err != nil {
 			k.Fail("mismatch", "harness:layouter-setup", "cannot build the test font: %v", env.err)
